@@ -1,5 +1,6 @@
 import RisorModel.C15.Lemmas
 import RisorModel.C15.LemmasW
+import RisorModel.C15.LemmasH
 set_option linter.unusedSimpArgs false
 set_option linter.unnecessarySimpa false
 /-!
@@ -557,5 +558,201 @@ example : lossy (.map [[107]] [.int 1]) (.map [[107]] [.float (exactF 1)]) = fal
 /-- a set built from `==` values of one type has one slot; of different types, two -/
 example : (mkSet [.int 1, .int 1, .float (exactF 1)]).map (fun s => s.map ty) = some [.float, .int] := by
   decide +kernel
+
+/-! ## error objects: `==` and the ordering see the message and the raised flag, nothing else
+
+An error value holds a Go `error` with an identity, a Go type and a chain of wrapped errors
+(`ErrObj`, Model.lean).  The theorems below are for ALL error objects — any identities, any Go
+types, any wrap chains, related or unrelated. -/
+
+/-- `Error.Equals` / `Error.Compare` on two error objects are `==` / `Compare` of the script values
+    they present (`Val.err message raised`): every law of this file about `Val.err` — alone or
+    nested in lists, maps, … — is a law of error objects whatever Go errors they hold. -/
+theorem errobj_eq_is_val_eq (a b : ErrObj) :
+    errObjEquals a b = equals a.val b.val ∧ compare a.val b.val = some (errObjCompare a b) := by
+  simp [errObjEquals, errObjCompare, ErrObj.val, equals, equalsG, scalarEquals, compare, compareG, scalarCompare]
+
+/-- `==` on error objects is reflexive and SYMMETRIC for all pairs: in particular for an error
+    and an error that wraps it (`fmt.Errorf("…: %w", e)`), in both directions. -/
+theorem errobj_eq_refl_symm (a b : ErrObj) :
+    errObjEquals a a = true ∧ errObjEquals a b = errObjEquals b a := by
+  rw [(errobj_eq_is_val_eq a a).1, (errobj_eq_is_val_eq a b).1, (errobj_eq_is_val_eq b a).1]
+  exact ⟨eq_refl _, eq_symm _ _⟩
+
+/-- `==` on error objects is transitive, without any guard. -/
+theorem errobj_eq_trans (a b c : ErrObj) (h1 : errObjEquals a b = true) (h2 : errObjEquals b c = true) :
+    errObjEquals a c = true := by
+  rw [(errobj_eq_is_val_eq _ _).1] at *
+  exact eq_trans_scalar_same_type a.val b.val c.val rfl rfl rfl h1 h2
+
+/-- The ordering of error objects agrees with `==` and is antisymmetric:
+    `a.Compare(b) = 0` exactly when `a == b`, and `b.Compare(a) = -a.Compare(b)`. -/
+theorem errobj_compare_agrees_eq (a b : ErrObj) :
+    (errObjCompare a b = 0 ↔ errObjEquals a b = true) ∧ errObjCompare b a = -errObjCompare a b := by
+  constructor
+  · rw [(errobj_eq_is_val_eq a b).1]
+    exact compare_agrees_eq a.val b.val _ (errobj_eq_is_val_eq a b).2
+  · exact errCmp_antisymm _ _ _ _
+
+/-- The provenance is invisible: two error objects with the same message and raised flag are
+    `==` and interchangeable in every comparison, whatever their identities, Go types and wrap
+    chains (e.g. `errors.new("x")` twice, `errors.type_error("x")`, `fmt.Errorf("%w", e)`). -/
+theorem errobj_eq_ignores_provenance (a a' b : ErrObj) (hm : a.go.msg = a'.go.msg) (hr : a.raised = a'.raised) :
+    errObjEquals a a' = true ∧ errObjEquals a b = errObjEquals a' b ∧ errObjEquals b a = errObjEquals b a' ∧
+    errObjCompare a b = errObjCompare a' b := by
+  simp [errObjEquals, errObjCompare, hm, hr]
+
+/-- Conversely an error and an error that wraps it under a longer message are NOT `==`, in either
+    direction (what `errors.is` answers is not what `==` answers). -/
+theorem errobj_wrapper_ne (a b : ErrObj) (hm : a.go.msg ≠ b.go.msg) :
+    errObjEquals a b = false ∧ errObjEquals b a = false := by
+  simp [errObjEquals, hm, Ne.symm hm]
+
+/-- Why the provenance must not enter `==`: `errors.Is` is directional, so an equality that also
+    accepted `errors.Is(a, b)` would not be symmetric — witness: a sentinel and a wrapper of it. -/
+theorem eq_consulting_is_not_symmetric :
+    ¬ ∀ a b : ErrObj, errObjEqualsIs a b = errObjEqualsIs b a := by
+  intro h
+  have := h ⟨⟨1, 1, [108, 58, 110], [0]⟩, false⟩ ⟨⟨0, 0, [110], []⟩, false⟩
+  revert this
+  decide
+
+/-! ## sets and maps with a history
+
+`setHist s ops` is the set object `s` after the operations `ops` (add / remove / delete() /
+clear, interleaved with observations), `mapRun es ops` the same for a map (assignment,
+delete(), pop, setdefault, clear, a rejected non-string key, observations).  The theorems are
+for ALL histories of any length over any values. -/
+
+/-- Every set reachable from a well-formed set by ANY history is well-formed (hashable items,
+    strictly sorted, distinct hash keys): all set theorems of this file (`set_eq_refl/_symm/_trans`,
+    `set_eq_iff_members`, `equals_as_written`, …) apply to sets with a history. -/
+theorem set_hist_wf (s : List Val) (ops : List (SetOp Val)) (h : wf (.set s) = true) :
+    wf (.set (setHist s ops)) = true := setHist_wf s ops h
+
+/-- After any history, membership (`x in s`, decided by hash key) agrees with ITERATING the set
+    (its `SortedItems` order, what `for … range s`, `list(s)`, `sorted(s)` and printing walk) and
+    comparing within the type of the probe — for all probes, hashable or not. -/
+theorem set_hist_in_iff_iter (s : List Val) (ops : List (SetOp Val)) (x : Val) (h : wf (.set s) = true) :
+    contains (.set (setHist s ops)) x = some true ↔
+      ∃ y ∈ setHist s ops, ty y = ty x ∧ equals y x = true := by
+  have hw := (wf_set_iff _).1 (setHist_wf s ops h)
+  cases hx : hashKey x with
+  | none =>
+    simp only [contains, hx, Option.some.injEq, Bool.false_eq_true, false_iff]
+    rintro ⟨y, hy, ht, _⟩
+    have := hashable_of_ty ht
+    rw [hashKey_of_hashable (hw.1 y hy), hx] at this
+    simp at this
+  | some k =>
+    rw [contains_set_memB _ hw.1 x k hx]
+    simp only [Option.some.injEq, memB, List.any_eq_true, decide_eq_true_eq]
+    constructor
+    · rintro ⟨y, hy, e⟩
+      exact ⟨y, hy, (hash_eq_same_type y x _ _ (hashKey_of_hashable (hw.1 y hy)) hx).1 e⟩
+    · rintro ⟨y, hy, e⟩
+      exact ⟨y, hy, (hash_eq_same_type y x _ _ (hashKey_of_hashable (hw.1 y hy)) hx).2 e⟩
+
+/-- After any history, membership is what the history says: the LAST operation that mentions the
+    probe's hash key decides (add → member; remove or delete() → not a member; clear → nothing is a
+    member); observations and rejected (unhashable) arguments decide nothing. -/
+theorem set_hist_in_iff_spec (s : List Val) (ops : List (SetOp Val)) (x : Val) (k : HashKey)
+    (h : wf (.set s) = true) (hx : hashKey x = some k) :
+    contains (.set (setHist s ops)) x = some (specMember s ops k) := by
+  have hw := (wf_set_iff _).1 (setHist_wf s ops h)
+  rw [contains_set_memB _ hw.1 x k hx, memB_setHist, specMember_eq]
+
+/-- Observations are invisible: dropping every observation from a history changes nothing of
+    the resulting set (so no later `in`, `len`, iteration, `sorted` or `==` can tell whether the
+    set was printed, iterated, listed or sorted on the way). -/
+theorem set_hist_observe_irrelevant (s : List Val) (ops : List (SetOp Val)) :
+    setHist s (ops.filter (fun o => !o.isObserve)) = setHist s ops :=
+  setRun_drop_observe isHashable keyOf ops s
+
+/-- After any history no two slots hold values of one type that are `==`. -/
+theorem set_hist_single_slot (s : List Val) (ops : List (SetOp Val)) (h : wf (.set s) = true) :
+    (setHist s ops).Pairwise (fun a b => ¬ (ty a = ty b ∧ equals a b = true)) := by
+  have hw := (wf_set_iff _).1 (setHist_wf s ops h)
+  have hn := hw.2
+  rw [List.pairwise_map] at hn
+  refine List.Pairwise.imp_of_mem ?_ hn
+  intro a b ha hb hlt hc
+  have hk : keyOf a = keyOf b :=
+    (hash_eq_same_type a b _ _ (hashKey_of_hashable (hw.1 a ha)) (hashKey_of_hashable (hw.1 b hb))).2 hc
+  rw [hk] at hlt
+  exact hkLess_strictTotal.irrefl _ hlt
+
+/-- After any history `sorted(s)`, when it succeeds, is a permutation of the set's items: as many
+    items as `len(s)`, each of them a member (`in`), and the set is truthy exactly when that
+    number is non-zero. -/
+theorem set_hist_sorted_members (s : List Val) (ops : List (SetOp Val)) (ys : List Val)
+    (h : wf (.set s) = true) (hs : sorted (setHist s ops) = some ys) :
+    ys.Perm (setHist s ops) ∧ len (.set (setHist s ops)) = some ys.length ∧
+    (∀ y ∈ ys, contains (.set (setHist s ops)) y = some true) ∧
+    (truthy (.set (setHist s ops)) = true ↔ ys.length ≠ 0) := by
+  have hp := sorted_perm _ _ hs
+  refine ⟨hp, by simp [len, hp.length_eq], ?_, ?_⟩
+  · intro y hy
+    exact (set_hist_in_iff_iter s ops y h).2 ⟨y, hp.mem_iff.1 hy, rfl, eq_refl y⟩
+  · rw [truthy_iff_len_pos _ _ (show len (.set (setHist s ops)) = some ys.length by simp [len, hp.length_eq])]
+
+/-- Every map reachable from a well-formed map by ANY history that stores well-formed values is
+    well-formed (strictly sorted, distinct keys): the map theorems of this file apply to it. -/
+theorem map_hist_wf (es : List (List Nat × Val)) (ops : List (MapOp Val)) (h : wf (mapVal es) = true)
+    (hv : ∀ o ∈ ops, ∀ v, o.stored = some v → wf v = true) : wf (mapVal (mapRun es ops)) = true := by
+  rw [wf_map_iff] at h ⊢
+  exact ⟨mapRun_sorted ops es h.1, mapRun_all (fun v => wf v = true) ops es hv h.2⟩
+
+/-- After any history `k in m` agrees with iterating the map's keys (`SortedKeys`: iteration,
+    `keys()`, `sorted(m)`, printing) and comparing them with the probe, for all probes. -/
+theorem map_hist_in_iff_iter (es : List (List Nat × Val)) (ops : List (MapOp Val)) (x : Val) :
+    contains (mapVal (mapRun es ops)) x = some true ↔ ∃ e ∈ mapRun es ops, equals (.str e.1) x = true := by
+  unfold mapVal
+  rw [map_in_iff_exists_eq]
+  simp only [List.mem_map]
+  constructor
+  · rintro ⟨k, ⟨e, he, rfl⟩, hk⟩; exact ⟨e, he, hk⟩
+  · rintro ⟨e, he, hk⟩; exact ⟨e.1, ⟨e, he, rfl⟩, hk⟩
+
+/-- After any history key membership is what the history says: the last operation that mentions
+    the key decides (assignment / setdefault → present; delete() / pop → absent; clear → no key is
+    present); observations and rejected non-string keys decide nothing. -/
+theorem map_hist_in_iff_spec (es : List (List Nat × Val)) (ops : List (MapOp Val)) (k : List Nat) :
+    contains (mapVal (mapRun es ops)) (.str k) = some (specHasKey es ops k) := by
+  rw [specHasKey_eq, ← hasKeyB_mapRun]
+  simp only [mapVal, contains, hasKeyB, Option.some.injEq, List.any_map]
+  congr 1
+  funext e
+  simp only [Function.comp]
+  rw [Bool.eq_iff_iff]; simp
+
+/-- Observations of a map are invisible to every later view. -/
+theorem map_hist_observe_irrelevant (es : List (List Nat × Val)) (ops : List (MapOp Val)) :
+    mapRun es (ops.filter (fun o => !o.isObserve)) = mapRun es ops := mapRun_drop_observe ops es
+
+/-- A map after any history is truthy exactly when it has a key, and `len` counts the keys that
+    iteration yields. -/
+theorem map_hist_truthy_len (es : List (List Nat × Val)) (ops : List (MapOp Val)) :
+    len (mapVal (mapRun es ops)) = some (mapRun es ops).length ∧
+    (truthy (mapVal (mapRun es ops)) = true ↔ (mapRun es ops).length ≠ 0) := by
+  have hl : len (mapVal (mapRun es ops)) = some (mapRun es ops).length := by simp [mapVal, len]
+  exact ⟨hl, truthy_iff_len_pos _ _ hl⟩
+
+/-- non-vacuity: a set that is iterated, then shrunk with delete(), then iterated again —
+    `{0.0, 1, 2, "a"}`; observe; `delete(s, 2)`; observe; `s.add(2.0)`; `delete(s, [])` (rejected):
+    the items are `0.0`, `2.0`, `1`, `"a"` (by hash key), and `2` is not a member -/
+example : (setHist [.float (exactF 0), .int 1, .int 2, .str [97]]
+      [.observe, .del (.int 2), .observe, .add (.float (exactF 2)), .del (.list [])]).map keyOf =
+    [⟨.float, .fin 0, 0, []⟩, ⟨.float, exactF 2, 0, []⟩, ⟨.int, .fin 0, 1, []⟩, ⟨.str, .fin 0, 0, [97]⟩] ∧
+    wf (.set [.float (exactF 0), .int 1, .int 2, .str [97]]) = true ∧
+    specMember [.float (exactF 0), .int 1, .int 2, .str [97]]
+      [.observe, .del (.int 2), .observe, .add (.float (exactF 2)), .del (.list [])] ⟨.int, .fin 0, 2, []⟩ = false := by
+  decide +kernel
+
+/-- non-vacuity: a map history `{"b": 1}`; `m["a"] = nil`; observe; `delete(m, "b")`;
+    `m.setdefault("a", 2)`; `m[1] = 0` (rejected): one key `"a"`, still bound to nil -/
+example : (mapRun [([98], Val.int 1)]
+      [.set [97] .nil, .observe, .del [98], .setdefault [97] (.int 2), .badkey]).map (fun e => (e.1, ty e.2)) =
+    [([97], Ty.nil)] := by decide +kernel
 
 end Risor.C15
